@@ -294,6 +294,7 @@ def run(ctx):
     rule_per_validator_resolver(ctx, "R2.11")
     scope.rule_scope_entered(ctx, "R2.12")
     scope.rule_who_raises_ref_error(ctx, "R2.13")
+    scope.rule_custom_scheme_refs(ctx, "R2.15")
     # R2.14: what a URI designates is what the store holds for it: outside the constructor the store is written in one place, under
     # the URL a document was retrieved for -- never under an id the retrieved document claims for itself (that would replace the
     # referrer or a caller-supplied document)
